@@ -253,6 +253,18 @@ impl Transaction {
         result_map
     }
 
+    /// Add-only accessor for the /verif harness: (active flag, pending records sorted by key)
+    #[cfg(feature = "verif_hooks")]
+    pub fn verif_snapshot(&self) -> (bool, Vec<(Vec<u8>, DbRecord)>) {
+        let mut records = self
+            .mods
+            .iter()
+            .map(|p| (p.key().clone(), p.value().clone()))
+            .collect::<Vec<_>>();
+        records.sort_by(|a, b| a.0.cmp(&b.0));
+        (self.active.load(Ordering::Relaxed), records)
+    }
+
     /// Find the appropriate item of the cached value states for a given user. This assumes that the incoming vector
     /// is already sorted in ascending epoch order.
     fn find_appropriate_item(
